@@ -10,7 +10,7 @@ namespace Ctx
 def ups : List Ev → List (Nat × Nat)
   | [] => []
   | .init c o :: t => (c, o) :: ups t
-  | .down c o :: t => (ups t).erase (c, o)
+  | .down c o :: t => (ups t).filter (· != (c, o))
   | _ :: t => ups t
 
 /-- number of initialisations so far = number of object identities seen -/
@@ -63,10 +63,14 @@ def always (cond : List Ev → Ev → Bool) : List Ev → Bool
   | [] => true
   | ev :: older => cond older ev && always cond older
 
-/-- I1 + identities are fresh: an initialisation creates a new identity, and no object of the
-    same class is up at that moment -/
+/-- I1: no object of the same class is up when a machine is initialised -/
 def condInit (older : List Ev) : Ev → Bool
-  | .init c o => o == nSeen older && !classUp older c
+  | .init c _ => !classUp older c
+  | _ => true
+
+/-- I2 (exactly once): an initialisation creates a new identity — no object is initialised twice -/
+def condFresh (older : List Ev) : Ev → Bool
+  | .init _ o => o == nSeen older
   | _ => true
 
 /-- I2 (alternation): only an object that is up goes down -/
@@ -115,7 +119,7 @@ end
 def Case.kaOff (cs : Case) : Bool := !cs.ka && cs.prog.noKaOn
 
 def specI1 (tr : List Ev) : Bool := always condInit tr
-def specI2 (tr : List Ev) : Bool := always condDown tr && (ups tr).isEmpty
+def specI2 (tr : List Ev) : Bool := always condFresh tr && always condDown tr && (ups tr).isEmpty
 def specI3 (tr : List Ev) : Bool := always condYield tr
 def specI4 (cs : Case) (tr : List Ev) : Bool := !cs.kaOff || always condRelease tr
 def specI5 (tr : List Ev) : Bool := always condLeave tr
